@@ -410,46 +410,65 @@ Proof.
   - destruct (render_ann_props a) as [P1 P2]. split; [exact P1|split; [exact P2|apply type_from_string_render]].
 Qed.
 
-Lemma leaf_default_text l : leaf_ok l = true ->
+Lemma leaf_ok_full_of l : leaf_ok l = true -> leaf_ok_full l = true.
+Proof.
+  destruct l as [e [d|]|[z|]|[d|]|[b|]|a]; cbn [leaf_ok leaf_ok_full]; intros H; try reflexivity.
+  - apply andb_prop in H. destruct H as [H He]. apply andb_prop in H. destruct H as [Hs _].
+    rewrite Hs, He. reflexivity.
+  - apply andb_prop in H. destruct H as [H _]. exact H.
+Qed.
+
+Lemma leaf_default_text l : leaf_ok_full l = true ->
   match default_text l with
-  | Some d => stripped d = true /\ no_char HS d = true
+  | Some d => stripped d = true
               /\ (type_text l = None -> no_char AS d = true)
               /\ get_value_for_type (fst (denote_leaf l)) (Some d) = Ok (snd (denote_leaf l))
   | None => get_value_for_type (fst (denote_leaf l)) None = Ok (snd (denote_leaf l))
   end.
 Proof.
-  pose proof basic_names_ok_true as T. unfold basic_names_ok in T.
-  cbn [forallb] in T. repeat (apply andb_prop in T; destruct T as [T ?]).
-  destruct l as [e [d|]|[z|]|[d|]|[b|]|a]; cbn [leaf_ok default_text denote_leaf fst snd option_map];
+  destruct l as [e [d|]|[z|]|[d|]|[b|]|a]; cbn [leaf_ok_full default_text denote_leaf fst snd option_map];
     intros Hok; try reflexivity.
   - (* str with default *)
-    apply andb_prop in Hok. destruct Hok as [Hok He]. apply andb_prop in Hok. destruct Hok as [Hs Hh].
-    split; [exact Hs|split; [exact Hh|split; [|reflexivity]]].
+    apply andb_prop in Hok. destruct Hok as [Hs He].
+    split; [exact Hs|split; [|reflexivity]].
     destruct e; cbn [type_text]; [discriminate|]. intros _. exact He.
   - (* int *)
-    split; [apply nows_stripped, str_of_Z_nows|]. split.
-    + unfold str_of_Z. destruct (z <? 0)%Z.
-      * rewrite no_char_cons. rewrite digits_no_char; [|apply str_of_N_digit_chars|vm_compute; reflexivity].
-        vm_compute. reflexivity.
-      * apply digits_no_char; [apply str_of_N_digit_chars|vm_compute; reflexivity].
-    + split; [discriminate|]. cbn [get_value_for_type]. rewrite py_int_str_of_Z. reflexivity.
+    split; [apply nows_stripped, str_of_Z_nows|].
+    split; [discriminate|]. cbn [get_value_for_type]. rewrite py_int_str_of_Z. reflexivity.
   - (* float *)
-    apply andb_prop in Hok. destruct Hok as [Hok Hn]. apply andb_prop in Hok. destruct Hok as [Hf Hs].
-    unfold no_seps in Hn. apply andb_prop in Hn. destruct Hn as [Hn _]. apply andb_prop in Hn. destruct Hn as [Hh _].
-    split; [exact Hs|split; [exact Hh|split; [discriminate|]]].
+    apply andb_prop in Hok. destruct Hok as [Hf Hs].
+    split; [exact Hs|split; [discriminate|]].
     cbn [get_value_for_type]. rewrite Hf. reflexivity.
   - (* bool *)
+    pose proof basic_names_ok_true as T. unfold basic_names_ok in T.
+    cbn [forallb] in T. repeat (apply andb_prop in T; destruct T as [T ?]).
     destruct bool_words as [BT BF].
-    assert (HT : no_seps s_True = true /\ nows s_True = true) by (split; assumption).
-    assert (HF : no_seps s_False = true /\ nows s_False = true) by (split; assumption).
     destruct b.
-    + destruct HT as [N1 N2]. split; [apply nows_stripped, N2|].
-      unfold no_seps in N1. apply andb_prop in N1. destruct N1 as [N1 _]. apply andb_prop in N1. destruct N1 as [N1 _].
-      split; [exact N1|split; [discriminate|]]. cbn [get_value_for_type]. rewrite BT. reflexivity.
-    + destruct HF as [N1 N2]. split; [apply nows_stripped, N2|].
-      unfold no_seps in N1. apply andb_prop in N1. destruct N1 as [N1 _]. apply andb_prop in N1. destruct N1 as [N1 _].
-      split; [exact N1|split; [discriminate|]]. cbn [get_value_for_type]. rewrite BF. reflexivity.
+    + split; [apply nows_stripped; assumption|].
+      split; [discriminate|]. cbn [get_value_for_type]. rewrite BT. reflexivity.
+    + split; [apply nows_stripped; assumption|].
+      split; [discriminate|]. cbn [get_value_for_type]. rewrite BF. reflexivity.
   - apply gvt_ann_none.
+Qed.
+
+(* in the family of the headline theorem a written default has no header separator *)
+Lemma leaf_default_nohs l : leaf_ok l = true ->
+  match default_text l with Some d => no_char HS d = true | None => True end.
+Proof.
+  pose proof basic_names_ok_true as T. unfold basic_names_ok in T.
+  cbn [forallb] in T. repeat (apply andb_prop in T; destruct T as [T ?]).
+  destruct l as [e [d|]|[z|]|[d|]|[b|]|a]; cbn [leaf_ok default_text option_map]; intros Hok; try exact I.
+  - apply andb_prop in Hok. destruct Hok as [Hok _]. apply andb_prop in Hok. tauto.
+  - unfold str_of_Z. destruct (z <? 0)%Z.
+    + rewrite no_char_cons. rewrite digits_no_char; [|apply str_of_N_digit_chars|vm_compute; reflexivity].
+      vm_compute. reflexivity.
+    + apply digits_no_char; [apply str_of_N_digit_chars|vm_compute; reflexivity].
+  - apply andb_prop in Hok. destruct Hok as [_ Hn].
+    unfold no_seps in Hn. apply andb_prop in Hn. destruct Hn as [Hn _]. apply andb_prop in Hn. tauto.
+  - assert (HT : no_seps s_True = true) by assumption.
+    assert (HF : no_seps s_False = true) by assumption.
+    destruct b; [unfold no_seps in HT; apply andb_prop in HT; destruct HT as [HT _]; apply andb_prop in HT; tauto|].
+    unfold no_seps in HF. apply andb_prop in HF. destruct HF as [HF _]. apply andb_prop in HF. tauto.
 Qed.
 
 Lemma no_seps_proj s : no_seps s = true ->
@@ -469,10 +488,10 @@ Qed.
 Lemma nows_all_stripped s : nows s = true -> stripped s = true.
 Proof. apply nows_stripped. Qed.
 
-Lemma leaf_header p n l :
-  pads_ok p = true -> leaf_ok l = true -> name_ok n = true ->
+Lemma leaf_header_parse p n l :
+  pads_ok p = true -> leaf_ok_full l = true -> name_ok n = true ->
   let h := render_leaf p n l in
-  split_first HS h = None /\ get_field_name h = n /\ parse_header_annotations h = Ok (denote_leaf l).
+  get_field_name h = n /\ parse_header_annotations h = Ok (denote_leaf l).
 Proof.
   intros Hp Hl Hn h.
   unfold pads_ok in Hp. repeat (apply andb_prop in Hp; destruct Hp as [Hp ?]).
@@ -487,21 +506,17 @@ Proof.
   subst h. unfold render_leaf, get_field_name, parse_header_annotations, infer_type, infer_default_value.
   destruct (type_text l) as [t|]; destruct (default_text l) as [d|].
   - (* type and default *)
-    destruct TT as (Tn & Tw & Tt). destruct DT as (Ds & Dh & _ & Dv).
+    destruct TT as (Tn & Tw & Tt). destruct DT as (Ds & _ & Dv).
     set (tp := p2 p ++ t ++ p3 p). set (dp := p4 p ++ d ++ p5 p).
     assert (Htp : no_seps tp = true).
     { unfold tp. rewrite !no_seps_app, Tn, (ws_no_seps _ W2), (ws_no_seps _ W3). reflexivity. }
     destruct (no_seps_proj _ Htp) as (TpH & TpA & TpD).
-    assert (Hdp : no_char HS dp = true).
-    { unfold dp. rewrite !no_char_app, Dh, (all_ws_no_char _ _ hdr_plain W4), (all_ws_no_char _ _ hdr_plain W5). reflexivity. }
     assert (Stp : strip tp = t) by (unfold tp; apply strip_padded; auto using nows_all_stripped).
     assert (Sdp : strip dp = d) by (unfold dp; apply strip_padded; assumption).
     assert (E : p0 p ++ n ++ p1 p ++ (AS :: tp) ++ DS :: dp = head ++ AS :: (tp ++ DS :: dp))
       by (unfold head; repeat (rewrite <- ?app_assoc; cbn [app]); reflexivity).
     rewrite !E. clear E. clearbody head tp dp.
-    split; [|split].
-    + apply split_first_none. rewrite no_char_app, no_char_cons, no_char_app, no_char_cons.
-      rewrite HhH, sep_ah, TpH, sep_dh, Hdp. reflexivity.
+    split.
     + rewrite before_app by exact HhA. rewrite before_none by exact HhD. exact Hstrip.
     + rewrite split_first_app by exact HhA. rewrite before_app by exact TpD.
       rewrite Stp, Tt.
@@ -521,8 +536,7 @@ Proof.
     assert (E : p0 p ++ n ++ p1 p ++ (AS :: tp) ++ [] = head ++ AS :: tp)
       by (unfold head; rewrite app_nil_r; repeat (rewrite <- ?app_assoc; cbn [app]); reflexivity).
     rewrite !E. clear E. clearbody head tp.
-    split; [|split].
-    + apply split_first_none. rewrite no_char_app, no_char_cons, HhH, sep_ah, TpH. reflexivity.
+    split.
     + rewrite before_app by exact HhA. rewrite before_none by exact HhD. exact Hstrip.
     + rewrite split_first_app by exact HhA. rewrite before_none by exact TpD.
       rewrite Stp, Tt.
@@ -530,10 +544,8 @@ Proof.
         by (rewrite no_char_app, no_char_cons, HhD, sep_ad; exact TpD).
       rewrite DT. destruct (denote_leaf l). reflexivity.
   - (* default only: the default must not contain the annotation separator *)
-    destruct DT as (Ds & Dh & Da & Dv). specialize (Da eq_refl).
+    destruct DT as (Ds & Da & Dv). specialize (Da eq_refl).
     set (dp := p4 p ++ d ++ p5 p).
-    assert (HdpH : no_char HS dp = true).
-    { unfold dp. rewrite !no_char_app, Dh, (all_ws_no_char _ _ hdr_plain W4), (all_ws_no_char _ _ hdr_plain W5). reflexivity. }
     assert (HdpA : no_char AS dp = true).
     { unfold dp. rewrite !no_char_app, Da, (all_ws_no_char _ _ ann_plain W4), (all_ws_no_char _ _ ann_plain W5). reflexivity. }
     assert (Sdp : strip dp = d) by (unfold dp; apply strip_padded; assumption).
@@ -542,8 +554,7 @@ Proof.
     rewrite !E. clear E. clearbody head dp.
     assert (HA : no_char AS (head ++ DS :: dp) = true)
       by (rewrite no_char_app, no_char_cons, HhA, sep_da, HdpA; reflexivity).
-    split; [|split].
-    + apply split_first_none. rewrite no_char_app, no_char_cons, HhH, sep_dh, HdpH. reflexivity.
+    split.
     + rewrite (before_none AS) by exact HA. rewrite before_app by exact HhD. exact Hstrip.
     + rewrite (split_first_none AS) by exact HA. rewrite tfs_empty.
       rewrite split_first_app by exact HhD. rewrite Sdp.
@@ -552,9 +563,102 @@ Proof.
     assert (E : p0 p ++ n ++ p1 p ++ [] ++ [] = head)
       by (unfold head; rewrite !app_nil_r; reflexivity).
     rewrite !E. clear E. clearbody head.
-    split; [|split].
-    + apply split_first_none, HhH.
+    split.
     + rewrite (before_none AS) by exact HhA. rewrite (before_none DS) by exact HhD. exact Hstrip.
     + rewrite (split_first_none AS) by exact HhA. rewrite (split_first_none DS) by exact HhD. rewrite tfs_empty.
       rewrite TT in DT. rewrite DT. rewrite <- TT. destruct (denote_leaf l). reflexivity.
+Qed.
+
+(* in the family of the headline theorem a rendered plain column has no header separator at all *)
+Lemma leaf_header_nohs p n l :
+  pads_ok p = true -> leaf_ok l = true -> name_ok n = true -> no_char HS (render_leaf p n l) = true.
+Proof.
+  intros Hp Hl Hn.
+  unfold pads_ok in Hp. repeat (apply andb_prop in Hp; destruct Hp as [Hp ?]).
+  rename Hp into W0, H3 into W1, H2 into W2, H1 into W3, H0 into W4, H into W5.
+  unfold name_ok in Hn. apply andb_prop in Hn. destruct Hn as [Nn _].
+  apply no_seps_proj in Nn. destruct Nn as (Nh & _ & _).
+  pose proof (leaf_type_text l) as TT. pose proof (leaf_default_nohs l Hl) as DH.
+  unfold render_leaf. rewrite !no_char_app, Nh.
+  rewrite (all_ws_no_char _ _ hdr_plain W0), (all_ws_no_char _ _ hdr_plain W1). cbn [andb].
+  apply andb_true_intro. split.
+  - destruct (type_text l) as [t|]; [|reflexivity]. destruct TT as (Tn & _ & _).
+    apply no_seps_proj in Tn. destruct Tn as (Th & _ & _).
+    rewrite no_char_cons, !no_char_app, sep_ah, Th.
+    rewrite (all_ws_no_char _ _ hdr_plain W2), (all_ws_no_char _ _ hdr_plain W3). reflexivity.
+  - destruct (default_text l) as [d|]; [|reflexivity].
+    rewrite no_char_cons, !no_char_app, sep_dh, DH.
+    rewrite (all_ws_no_char _ _ hdr_plain W4), (all_ws_no_char _ _ hdr_plain W5). reflexivity.
+Qed.
+
+(* ------------------------------------------------------------------ is a header nested? *)
+Lemma mem_char_lstrip c s : is_ws c = false -> mem_char c (lstrip s) = mem_char c s.
+Proof.
+  intros Hc. induction s as [|x s IH]; [reflexivity|]. cbn [lstrip mem_char].
+  destruct (is_ws x) eqn:Ex; [|reflexivity]. rewrite IH.
+  destruct (x =? c) eqn:E; [apply N.eqb_eq in E; subst; congruence|reflexivity].
+Qed.
+
+Lemma mem_char_rstrip c s : is_ws c = false -> mem_char c (rstrip s) = mem_char c s.
+Proof.
+  intros Hc. induction s as [|x s IH]; [reflexivity|]. rewrite rstrip_cons. cbn [mem_char].
+  rewrite <- IH. destruct (rstrip s) as [|y t].
+  - cbn [mem_char]. destruct (is_ws x) eqn:Ex; [|cbn [mem_char]; reflexivity].
+    cbn [mem_char]. destruct (x =? c) eqn:E; [apply N.eqb_eq in E; subst; congruence|reflexivity].
+  - reflexivity.
+Qed.
+
+Lemma mem_char_strip c s : is_ws c = false -> mem_char c (strip s) = mem_char c s.
+Proof. intros Hc. unfold strip. rewrite mem_char_rstrip, mem_char_lstrip by exact Hc. reflexivity. Qed.
+
+Lemma before_cons_ne (c x : char) (s : str) : (x =? c) = false -> before c (x :: s) = x :: before c s.
+Proof.
+  intros H. unfold before. cbn [split_first]. rewrite H.
+  destruct (split_first c s) as [[a b]|]; reflexivity.
+Qed.
+
+Lemma before_keeps_prefix (c : char) (a : str) (x : char) (s : str) :
+  no_char c a = true -> (x =? c) = false -> before c (a ++ x :: s) = a ++ x :: before c s.
+Proof.
+  intros Ha Hx. induction a as [|y a IH]; cbn [app].
+  - apply before_cons_ne, Hx.
+  - rewrite no_char_cons in Ha. apply andb_prop in Ha. destruct Ha as [Hy Ha]. apply negb_true_iff in Hy.
+    rewrite before_cons_ne by exact Hy. rewrite (IH Ha). reflexivity.
+Qed.
+
+(* a name followed by the header separator is nested under both behaviours *)
+Lemma is_nested_prefixed b n sub : no_seps n = true -> is_nested b (prefix_field n sub) = true.
+Proof.
+  intros Hn. destruct (no_seps_proj _ Hn) as (Nh & Na & Nd).
+  unfold is_nested, prefix_field. destruct b.
+  - unfold get_field_name. rewrite mem_char_strip by (apply sep_plain_not_ws, hdr_plain).
+    rewrite (before_keeps_prefix AS n HS sub Na sep_ha).
+    rewrite (before_keeps_prefix DS n HS _ Nd sep_hd).
+    rewrite mem_char_app. cbn [mem_char]. rewrite N.eqb_refl, orb_true_r. reflexivity.
+  - rewrite mem_char_app. cbn [mem_char]. rewrite N.eqb_refl, orb_true_r. reflexivity.
+Qed.
+
+Lemma hsplit_prefixed b n sub : no_seps n = true -> hsplit b (prefix_field n sub) = Some (n, sub).
+Proof.
+  intros Hn. unfold hsplit. rewrite is_nested_prefixed by exact Hn.
+  unfold prefix_field. apply split_first_app. apply no_seps_proj in Hn. tauto.
+Qed.
+
+(* a rendered plain column is not nested: under the field-name behaviour for every default,
+   under the whole-header behaviour when the default has no header separator *)
+Lemma leaf_header p n l b :
+  pads_ok p = true -> leaf_ok_full l = true -> name_ok n = true ->
+  (b = true \/ leaf_ok l = true) ->
+  let h := render_leaf p n l in
+  hsplit b h = None /\ get_field_name h = n /\ parse_header_annotations h = Ok (denote_leaf l).
+Proof.
+  intros Hp Hl Hn Hb h. destruct (leaf_header_parse p n l Hp Hl Hn) as [Hg Hpa]. fold h in Hg, Hpa.
+  split; [|split; assumption].
+  unfold hsplit, is_nested. destruct b.
+  - rewrite Hg. unfold name_ok in Hn. apply andb_prop in Hn. destruct Hn as [Nn _].
+    apply no_seps_proj in Nn. destruct Nn as (Nh & _ & _). unfold no_char in Nh.
+    apply negb_true_iff in Nh. rewrite Nh. reflexivity.
+  - destruct Hb as [Hb|Hb]; [discriminate|].
+    pose proof (leaf_header_nohs p n l Hp Hb Hn) as Hh. fold h in Hh. unfold no_char in Hh.
+    apply negb_true_iff in Hh. rewrite Hh. reflexivity.
 Qed.
